@@ -14,13 +14,23 @@ Local Open Scope Z_scope.
 Definition tgt (cap fill : Z) : option (list Z) :=
   Some (map (fun i => (fill + 7 * i) mod 256) (ziota 0 cap)).
 
+(* byte lists are written as one hexadecimal literal: 0x1 followed by two digits per byte *)
+Fixpoint hx_go (fuel : nat) (z : Z) (acc : list Z) : list Z :=
+  match fuel with
+  | O => acc
+  | S f => if z <=? 1 then acc else hx_go f (z / 256) (z mod 256 :: acc)
+  end.
+Definition hx (z : Z) : list Z := hx_go (Z.to_nat (Z.log2 z)) z [].
+
 Record obs := mkObs {
   o_bytes : list Z; o_len : Z; o_cap : Z; o_pc : Z; o_flags : Z; o_base : Z;
   o_m16 : bool; o_x16 : bool; o_labels : list (option Z) }.
 
 Inductive sobs := SNone | SSame | SFull (o : obs).
 Inductive step := SOp (o : op) | SClone (t : option (list Z)) | SAppend | SFinalize.
-Record srec := mkS { s_step : step; s_panic : bool; s_top : obs; s_second : sobs }.
+(* [s_top]: what was observed of the top emitter, its Bytes() written as a difference to the Bytes() of the
+   previous record: the first [s_keep] bytes of those, followed by [o_bytes (s_top)] *)
+Record srec := mkS { s_step : step; s_panic : bool; s_keep : Z; s_top : obs; s_second : sobs }.
 Record final := mkF {
   f_hex1 : list rline * bool; f_text1 : list rline * bool;
   f_res : fres; f_bytes : list Z;
@@ -86,8 +96,11 @@ Definition mstep (cb : bool) (s : step) (st : list em) : list em * bool :=
   | _, _ => (st, true)
   end.
 
-Fixpoint check_steps (cb : bool) (nl : N) (i : Z) (st : list em) (prev2 : option obs) (rs : list srec)
-  : list em * list (Z * Z) :=
+Definition with_bytes (b : list Z) (o : obs) : obs :=
+  mkObs b (o_len o) (o_cap o) (o_pc o) (o_flags o) (o_base o) (o_m16 o) (o_x16 o) (o_labels o).
+
+Fixpoint check_steps (cb : bool) (nl : N) (i : Z) (st : list em) (prev2 : option obs) (prevb : list Z)
+  (rs : list srec) : list em * list (Z * Z) :=
   match rs with
   | [] => (st, [])
   | r :: rest =>
@@ -95,7 +108,8 @@ Fixpoint check_steps (cb : bool) (nl : N) (i : Z) (st : list em) (prev2 : option
       let top := match st1 with e :: _ => obs_of nl e | [] => obs_of nl (new_em None false) end in
       let sec := match st1 with _ :: a :: _ => Some (obs_of nl a) | _ => None end in
       let d1 := if Bool.eqb refused (s_panic r) then [] else [1] in
-      let d2 := obs_diff top (s_top r) in
+      let realb := ztake (s_keep r) prevb ++ o_bytes (s_top r) in     (* Bytes() as observed *)
+      let d2 := obs_diff top (with_bytes realb (s_top r)) in
       let d3 := match s_second r, sec with
                 | SNone, None => []
                 | SFull o, Some m => match obs_diff m o with [] => [] | _ => [11] end
@@ -105,7 +119,7 @@ Fixpoint check_steps (cb : bool) (nl : N) (i : Z) (st : list em) (prev2 : option
                                    end
                 | _, _ => [14]
                 end in
-      let '(stf, ds) := check_steps cb nl (i + 1) st1 sec rest in
+      let '(stf, ds) := check_steps cb nl (i + 1) st1 sec realb rest in
       (stf, map (fun c => (i, c)) (d1 ++ d2 ++ d3) ++ ds)
   end.
 
@@ -143,7 +157,7 @@ Definition check_final (f : final) (e : em) : list (Z * Z) :=
         else [(-1, 23)]).
 
 Definition check_case (cb : bool) (c : case) : list (Z * Z) :=
-  let '(st, ds) := check_steps cb (c_nl c) 0 [new_em (c_target c) (c_gen c)] None (c_steps c) in
+  let '(st, ds) := check_steps cb (c_nl c) 0 [new_em (c_target c) (c_gen c)] None [] (c_steps c) in
   ds ++ match st with e :: _ => check_final (c_final c) e | [] => [(-1, 30)] end.
 
 Definition bad_cases (cb : bool) (cs : list case) : list (Z * list (Z * Z)) :=
